@@ -9,6 +9,7 @@
      c2m_init | c2m_finish     c2mir_init / c2mir_finish
      c2m <name> <hex C source> c2mir_compile of a C translation unit
      file <name> <hex text>    write a header into this script's private include directory
+     c2mx <name> <hex>         c2mir_compile of a unit with a C error: must return 0 (diagnosed), everything stays usable
      c2mo <name> <opts> <hex>  c2mir_compile with options; <opts> = '-' or a comma list of
                                Dname=def | Dname | Uname (macro commands), I (add the private include directory),
                                E (prepro_only into a sink), S (syntax_only), asm | obj (module also output / written
@@ -394,6 +395,25 @@ static int api_exec (struct api *a, const char *line) {
       api_outf (a, "X C2MFAIL %s", s1);
       return -1;
     }
+  } else if (strcmp (cmd, "c2mx") == 0) {
+    /* a translation unit with a C error: c2mir_compile reports it (to the message sink) and returns 0; the context
+       and the compiler stay usable */
+    struct c2mir_options ops;
+    char *src = api_unhex (rest + strlen (s1) + 1);
+    int ok;
+    memset (&ops, 0, sizeof (ops));
+    ops.message_file = a->null_file;
+    ops.module_num = a->nloaded + 100 * (size_t) a->id;
+    a->src = src;
+    a->src_pos = 0;
+    ok = c2mir_compile (a->ctx, &ops, api_getc, a, s1, NULL);
+    API_FREE (src);
+    if (ok) {
+      a->err_armed = 0;
+      api_outf (a, "X C2MX-COMPILED %s", s1);
+      return -1;
+    }
+    api_outf (a, "R c2mx %s rejected", s1);
   } else if (strcmp (cmd, "scan") == 0) {
     char *src = api_unhex (rest);
     MIR_scan_string (a->ctx, src);
